@@ -50,3 +50,6 @@ claim("C16",
       "Decides for every operation history (inductive who-may-write + dominance): registry collections are mutated only by the three adders, each pushing exactly once in the Vacant arm of the complete-key entry and recording the pre-push length as index, Occupied mutates nothing and reports the kind found; a built Scheme (Arc<SchemeBuilder>) is never mutated; identifiers are resolved by one exact HashMap::get of the maximal dotted run and get_field/get_function accept only their kind; reference objects carry registry indexes; equality is pointer identity.",
       TB + " HashMap/Fnv behaviour is trusted.",
       "who-may-write census + entry-arm dominance rules over HIR")
+claim("C12",
+      "Decides exhaustiveness of the AST walk from types: every child from which a Field is reachable is bound and forwarded in its own arm of all 14 walk/walk_mut implementations over the whole collection; default visitor methods forward to walk; the usage visitors only add the early-exit guard and set the flag under field equality; uses_list counts a field only inside an InList comparison and keeps walking; the four entry points resolve the name first and return an error for unknown names.",
+      TB, "ADT field-reachability vs. walk bodies (HIR), visitor table rules")
